@@ -2,6 +2,7 @@ package tasksim
 
 import (
 	"fmt"
+	"os"
 	"sync"
 
 	"verif/harness/fakepg"
@@ -27,6 +28,9 @@ type Scenario struct {
 	Real bool `json:"real,omitempty"`
 	// DBRows: integrations saved in shovel.integrations instead of the configuration file
 	DBRows []DBRow `json:"db_rows,omitempty"`
+	// Env: environment variables (upper-case names) set while the scenario runs: the values
+	// of "$NAME" references in the configuration
+	Env map[string]string `json:"env,omitempty"`
 }
 
 // PreCur is a recorded position that exists before the case starts; its hash
@@ -106,6 +110,10 @@ type callPlan struct {
 
 // Exec runs the scenario.
 func (sc *Scenario) Exec() (*Run, error) {
+	for k, v := range sc.Env {
+		os.Setenv(k, v)
+		defer os.Unsetenv(k)
+	}
 	rng := lib.NewRNG(sc.Seed)
 	hist := map[string]*History{}
 	for i, s := range sc.Srcs {
